@@ -104,6 +104,17 @@ func runC16(c c16Case, rec *stat.Rec) *stat.Failure {
 	if len(content) > 128<<10 {
 		rec.Class("content/>128KiB(window-trim-path)")
 	}
+	big := 0
+	for _, b := range fr.Blocks {
+		if b.Decoded > 65536 {
+			big++
+			if big >= 2 {
+				rec.Class("blocks/two-consecutive->64KiB")
+			}
+		} else {
+			big = 0
+		}
+	}
 	if c.R.WriteTo {
 		rec.Class("reader/writeto")
 	}
@@ -115,7 +126,11 @@ func runC16(c c16Case, rec *stat.Rec) *stat.Failure {
 func drawC16(t *rapid.T) c16Case {
 	var c c16Case
 	p := gen.FrameParams{Dependent: 2, MaxBlocks: 12, MaxBlockLen: 0, BigBlocks: thorough() && rapid.IntRange(0, 9).Draw(t, "big?") == 0}
-	switch rapid.IntRange(0, 3).Draw(t, "shape") {
+	switch rapid.IntRange(0, 4).Draw(t, "shape") {
+	case 4:
+		// consecutive blocks larger than the 64 KiB window (block maximum 256 KiB .. 4 MiB)
+		p.BigBlocks = true
+		p.MaxBlocks, p.MaxBlockLen = 5, pick(300<<10, 4<<20)
 	case 0:
 		p.MaxBlocks, p.MaxBlockLen = 60, 40 // runs of tiny blocks: the window spans dozens of blocks
 	case 1:
@@ -165,6 +180,6 @@ func TestC16Pinned(t *testing.T) {
 func TestC16(t *testing.T) {
 	rec := stat.For("C16")
 	rec.SetRule(c16Rule)
-	rec.Require("nontrivial", "match-spans/>=8-blocks", "match-spans/2..7-blocks", "offset/65535", "raw-blocks-present", "content/>128KiB(window-trim-path)", "reader/writeto")
+	rec.Require("nontrivial", "blocks/two-consecutive->64KiB", "match-spans/>=8-blocks", "match-spans/2..7-blocks", "offset/65535", "raw-blocks-present", "content/>128KiB(window-trim-path)", "reader/writeto")
 	checkProp(t, "C16", "C16/dependent", pick(40000, 800000), drawC16, runC16)
 }
